@@ -72,6 +72,46 @@ func tkQuotePool() []string {
 	return out
 }
 
+// tkFormatPool: format, zero-width and non-character code points (byte-order mark / zero width no-break
+// space, zero width space, no-break space, word joiner, soft hyphen, left-to-right mark, U+FFFE) are input
+// characters like any other ("every input character belongs to exactly one token"): as the first
+// character, inside, as the last character, alone, doubled, and next to every token class of each tokenizer.
+func tkFormatPool() []string {
+	var out []string
+	for _, z := range []string{"\ufeff", "\u200b", "\u00a0", "\u2060", "\ufffe", "\u00ad", "\u200e"} {
+		for _, t := range []string{"Z", "ZZ", "Za", "aZ", "aZb", "Z1", "1Z", "1Z2", "Z Z", " Z", "Z ", "Z\n", "\nZ", "a\nZb", "Z'x'", "'Z'", "'xZ", "Z\"a\",b", "Z,a", "a,Z", "a,Z,b\nZ",
+			"Z{{a}}", "{{Z}}", "{{a}}Z", "x{{aZ}}y", "Z/* c */", "/*Z*/", "/*Z", "//Z\nZ", "Z# c", "a + Z", "Z<=Z", "<Z=", "Z.5", "1.Z5", "-Z1"} {
+			out = append(out, strings.ReplaceAll(t, "Z", z))
+		}
+	}
+	return out
+}
+
+// tkUnclosedPool: an opener of a comment, a literal or a tag that is never closed, followed by characters
+// that take two, three and four bytes in UTF-8, after some leading tokens (a put-back that counts bytes,
+// UTF-16 units or anything but characters rewinds to the wrong place exactly here).
+func tkUnclosedPool() []string {
+	var out []string
+	for _, lead := range []string{"", "a", "1 + 2 ", "é ", "x,", "😀"} {
+		for _, open := range []string{"/*", "//", "#", "'", "\"", "/", "{{", "{{!", "{{ '", "{{a}}{{/*"} {
+			for _, tail := range []string{"é", " café", "ж", "日本", "😀", "x😀é", "é*", "日/", "é\nж", " c 日 *", "ÿĀ€😀"} {
+				out = append(out, lead+open+tail)
+			}
+		}
+	}
+	return out
+}
+
+// tkBudget tells a run that used up its step budget from the other undecided runs: the statements require
+// every input to be tokenized into a finite stream, and the budget is some hundred times what the longest
+// input of the families needs, so such a run is reported as a tokenization that does not end.
+func tkBudget(h *tkHarness, show, why string, maxOK int) string {
+	if !strings.Contains(why, "step budget") {
+		return ""
+	}
+	return fmt.Sprintf("%s does not end: the abstract run used up its budget of %d steps (%s; the longest run that ended, among those evaluated before on this instance, took %d steps) - every input must be tokenized into a finite stream whose values concatenate to the input, no character invented or read twice [last functions entered: %s]", show, h.m.maxSteps, why, maxOK, h.lastPath)
+}
+
 type tkSpan struct {
 	typ, val  string
 	line, col int64
@@ -504,7 +544,7 @@ func (c *Ctx) tkRunHistory(kind string, hist tkHistory, v *tkVerdict) {
 			}
 			switch r.kind {
 			case "opaque":
-				v.note("lossless", "", show+": "+r.why)
+				v.note("lossless", tkBudget(h, show, r.why, h.maxOK), show+": "+r.why)
 			case "panic":
 				v.note("lossless", show+" panics: "+r.why, "")
 			default:
@@ -556,6 +596,10 @@ func (c *Ctx) tkRun(kind, part string) *tkVerdict {
 	if part != "reuse" {
 		strs = append(strs, tkQuotePool()...)
 	}
+	if part == "base" {
+		strs = append(strs, tkFormatPool()...)
+		strs = append(strs, tkUnclosedPool()...)
+	}
 	total := newTkVerdict()
 	nw := 12
 	var wg sync.WaitGroup
@@ -593,7 +637,7 @@ func (c *Ctx) tkRun(kind, part string) *tkVerdict {
 				}
 				switch r.kind {
 				case "opaque":
-					v.note("lossless", "", show+": "+r.why)
+					v.note("lossless", tkBudget(h, show, r.why, h.maxOK), show+": "+r.why)
 					continue
 				case "panic":
 					v.note("lossless", show+" panics: "+r.why, "")
